@@ -95,7 +95,7 @@ def _shrink(hist):
                 yield dict(hist, instances=insts[:i] + [ni] + insts[i + 1:])
 
 
-HIST = C.Kind("history", impl=HH.run_history, model=HH.model_lines, assemble=HH.assemble, judge=_judge,
+HIST = C.Kind("history", impl=HH.run_history, model=HH.model_lines, assemble=HH.assemble, judge=_judge, compare=H.same("frames"),
               classify=lambda h, o: f"{len(h['instances'])}inst:{sum(len(i['ops']) for i in h['instances'])}ops",
               nontrivial=lambda h, o: (_shape(h), tuple(h.get("schedule", [])[:6])), shrink=_shrink)
 KINDS = {"history": HIST}
